@@ -31,7 +31,7 @@ type mutant struct {
 func main() {
 	repo := flag.String("repo", "/repo", "repository root")
 	out := flag.String("out", "", "output directory")
-	ops := flag.String("ops", "loopbreak,iffalse,iftrue,delif,delcall,deldefer,delassign,cmpflip,delgo", "operators")
+	ops := flag.String("ops", "loopbreak,iffalse,iftrue,delif,delcall,deldefer,delassign,cmpflip,delgo,swapargs,boolflip,intoff,arith", "operators")
 	flag.Parse()
 	want := map[string]bool{}
 	for _, o := range strings.Split(*ops, ",") {
@@ -126,7 +126,44 @@ func main() {
 							add("delassign", x.Pos(), "store removed: "+text(x), edit{off(x.Pos()), off(x.End()), "_ = " + text(x.Rhs[0])})
 						}
 					}
+				case *ast.CallExpr:
+					// two adjacent arguments exchanged (kept only when it still type-checks)
+					for i := 0; i+1 < len(x.Args); i++ {
+						a, b := text(x.Args[i]), text(x.Args[i+1])
+						if a != b {
+							add("swapargs", x.Args[i].Pos(), fmt.Sprintf("arguments %d and %d of %s exchanged", i, i+1, text(x.Fun)),
+								edit{off(x.Args[i].Pos()), off(x.Args[i].End()), b}, edit{off(x.Args[i+1].Pos()), off(x.Args[i+1].End()), a})
+						}
+					}
+				case *ast.Ident:
+					if x.Name == "true" || x.Name == "false" {
+						nv := "true"
+						if x.Name == "true" {
+							nv = "false"
+						}
+						add("boolflip", x.Pos(), x.Name+" -> "+nv, edit{off(x.Pos()), off(x.End()), nv})
+					}
+				case *ast.BasicLit:
+					if x.Kind == token.INT {
+						switch x.Value {
+						case "0":
+							add("intoff", x.Pos(), "0 -> 1", edit{off(x.Pos()), off(x.End()), "1"})
+						case "1":
+							add("intoff", x.Pos(), "1 -> 0", edit{off(x.Pos()), off(x.End()), "0"})
+							add("intoff", x.Pos(), "1 -> 2", edit{off(x.Pos()), off(x.End()), "2"})
+						default:
+							add("intoff", x.Pos(), x.Value+" -> "+x.Value+"+1", edit{off(x.Pos()), off(x.End()), "(" + x.Value + "+1)"})
+						}
+					}
 				case *ast.BinaryExpr:
+					// arithmetic operator exchanged
+					if x.Op == token.ADD || x.Op == token.SUB {
+						nt := "-"
+						if x.Op == token.SUB {
+							nt = "+"
+						}
+						add("arith", x.OpPos, fmt.Sprintf("%s -> %s in %s", x.Op, nt, text(x)), edit{off(x.OpPos), off(x.OpPos) + 1, nt})
+					}
 					flip := map[token.Token]string{token.LSS: "<=", token.LEQ: "<", token.GTR: ">=", token.GEQ: ">", token.EQL: "!=", token.NEQ: "=="}
 					if nt, ok := flip[x.Op]; ok {
 						add("cmpflip", x.OpPos, fmt.Sprintf("%s -> %s in %s", x.Op, nt, text(x)), edit{off(x.OpPos), off(x.OpPos) + len(x.Op.String()), nt})
